@@ -21,7 +21,8 @@ import (
 func init() {
 	// the token codes hard-wired in GoAst.v
 	want := map[token.Token]int{token.INT: 5, token.FLOAT: 6, token.STRING: 9, token.AND: 17, token.EQL: 39, token.LSS: 40,
-		token.GTR: 41, token.ASSIGN: 42, token.NEQ: 44, token.LEQ: 45, token.GEQ: 46, token.DEFINE: 47, token.TYPE: 84}
+		token.GTR: 41, token.ASSIGN: 42, token.NEQ: 44, token.LEQ: 45, token.GEQ: 46, token.DEFINE: 47, token.TYPE: 84,
+		token.LAND: 34, token.LOR: 35, token.BREAK: 61, token.FALLTHROUGH: 69, token.CONST: 64, token.VAR: 85, token.IMPORT: 75}
 	if types.IsInteger != 2 || types.Int != 2 || types.Uint != 7 || types.Uintptr != 12 {
 		panic("go/types basic constants differ from Model_Checkers.v")
 	}
@@ -169,7 +170,111 @@ func sigfact(t types.Type) string {
 	return fmt.Sprintf("(Sig %d %s %s %s)", sig.Params().Len(), coqfmt.Bool(sig.Variadic()), recv, coqfmt.Bool(opt))
 }
 
+// facts = base facts, wrapped in FX when a bit of f_ext or the type name is set
 func (c *converter) facts(n ast.Node, wantBasic bool) string {
+	base := c.baseFacts(n, wantBasic)
+	ext, tn := c.extFacts(n)
+	if ext == 0 && tn == "" {
+		return base
+	}
+	return fmt.Sprintf("(FX %s %d %s)", base, ext, coqfmt.Str(tn))
+}
+
+// unnamedResultChecker.typeName
+func typeNameOf(typ types.Type) string {
+	switch typ := typ.(type) {
+	case *types.Array:
+		return typeNameOf(typ.Elem())
+	case *types.Pointer:
+		return typeNameOf(typ.Elem())
+	case *types.Slice:
+		return typeNameOf(typ.Elem())
+	case *types.Named:
+		return typ.Obj().Name()
+	default:
+		return ""
+	}
+}
+
+// ptrToRefParamChecker.isRefType
+func isRefType(x types.Type) bool {
+	switch typ := x.(type) {
+	case *types.Map, *types.Chan, *types.Interface:
+		return true
+	case *types.Named:
+		if _, ok := typ.Underlying().(*types.Interface); ok {
+			return true
+		}
+	}
+	return false
+}
+
+// extFacts: the bit set f_ext (bit numbers x_* of GoAst.v) and f_tn
+func (c *converter) extFacts(n ast.Node) (int, string) {
+	ext := 0
+	set := func(bit int, v bool) {
+		if v {
+			ext |= 1 << bit
+		}
+	}
+	if fl, ok := n.(*ast.FieldList); ok {
+		if fl.Opening.IsValid() && fl.Closing.IsValid() {
+			set(9, Fset.Position(fl.Opening).Line != Fset.Position(fl.Closing).Line)
+		}
+		return ext, ""
+	}
+	e, ok := n.(ast.Expr)
+	if !ok {
+		return 0, ""
+	}
+	info := c.p.Info
+	if id, ok := e.(*ast.Ident); ok {
+		set(0, info.Defs[id] != nil)
+		set(1, ast.IsExported(id.Name))
+		if v, ok := info.ObjectOf(id).(*types.Var); ok {
+			set(10, !typep.IsStruct(v.Type().Underlying()))
+		}
+	}
+	typ := info.TypeOf(e)
+	if typ == nil {
+		typ = types.Typ[types.Invalid]
+	}
+	if pu, ok := typ.Underlying().(*types.Pointer); ok {
+		set(2, true)
+		switch pu.Elem().Underlying().(type) {
+		case *types.Pointer, *types.Interface:
+			set(3, true)
+		}
+	}
+	if pd, ok := typ.(*types.Pointer); ok {
+		_, arr := pd.Elem().(*types.Array)
+		set(4, arr)
+		set(5, isRefType(pd.Elem()))
+	}
+	set(6, typep.IsSlice(typ))
+	set(7, typep.IsTypeExpr(info, e))
+	if ta, ok := e.(*ast.TypeAssertExpr); ok && ta.Type != nil {
+		from := info.TypeOf(ta.X)
+		if from == nil {
+			from = types.Typ[types.Invalid]
+		}
+		set(8, types.Identical(typ, from))
+	}
+	if fl, ok := e.(*ast.FuncLit); ok && fl.Body != nil && len(fl.Body.List) == 1 {
+		if ret, ok := fl.Body.List[0].(*ast.ReturnStmt); ok && len(ret.Results) == 1 {
+			if call, ok := ret.Results[0].(*ast.CallExpr); ok {
+				ft := info.TypeOf(call.Fun)
+				if ft == nil {
+					ft = types.Typ[types.Invalid]
+				}
+				set(11, types.Identical(typ, ft))
+			}
+		}
+	}
+	return ext, typeNameOf(typ)
+}
+
+func (c *converter) baseFacts(n ast.Node, wantBasic bool) string {
 	e, ok := n.(ast.Expr)
 	if !ok {
 		return "nf"
@@ -224,9 +329,9 @@ func (c *converter) facts(n ast.Node, wantBasic bool) string {
 		coqfmt.Bool(pure), cst, sg, coqfmt.Bool(istype), multi)
 }
 
-func (c *converter) node(n ast.Node, wantBasic bool) {
-	c.nodes++
-	tag, s, a, b := "", `""`, 0, 0
+// tagOf: the GoAst tag of a node with its string and numeric slots
+func tagOf(n ast.Node) (tag, s string, a, b int) {
+	s = `""`
 	switch x := n.(type) {
 	case *ast.Ident:
 		tag, s = "TIdent", coqfmt.Str(x.Name)
@@ -247,7 +352,7 @@ func (c *converter) node(n ast.Node, wantBasic bool) {
 	case *ast.IndexListExpr:
 		tag = "TIndexList"
 	case *ast.SliceExpr:
-		tag = "TSliceExpr"
+		tag, a = "TSliceExpr", b2n(x.Low != nil)+2*b2n(x.High != nil)+4*b2n(x.Max != nil)
 	case *ast.CallExpr:
 		tag, a = "TCall", b2n(x.Ellipsis != token.NoPos)
 	case *ast.CompositeLit:
@@ -269,7 +374,7 @@ func (c *converter) node(n ast.Node, wantBasic bool) {
 	case *ast.ReturnStmt:
 		tag = "TReturn"
 	case *ast.RangeStmt:
-		tag, a = "TRange", b2n(x.Key != nil)+b2n(x.Value != nil)
+		tag, a, b = "TRange", b2n(x.Key != nil)+b2n(x.Value != nil), int(x.Tok)
 	case *ast.IfStmt:
 		tag, a, b = "TIf", b2n(x.Init != nil), b2n(x.Else != nil)
 	case *ast.DeferStmt:
@@ -286,7 +391,22 @@ func (c *converter) node(n ast.Node, wantBasic bool) {
 		tag, a = "TGenDecl", int(x.Tok)
 	case *ast.TypeSpec:
 		tag, a = "TTypeSpec", b2n(x.TypeParams != nil)
+	case *ast.SwitchStmt:
+		tag, a, b = "TSwitch", b2n(x.Init != nil), b2n(x.Tag != nil)
+	case *ast.TypeSwitchStmt:
+		tag, a = "TTypeSwitch", b2n(x.Init != nil)
+	case *ast.SelectStmt:
+		tag = "TSelect"
+	case *ast.ForStmt:
+		tag, a = "TFor", b2n(x.Init != nil)+2*b2n(x.Cond != nil)+4*b2n(x.Post != nil)
+	case *ast.BranchStmt:
+		tag, a = "TBranch", int(x.Tok)
+	case *ast.ValueSpec:
+		tag, a, b = "TValueSpec", len(x.Names), b2n(x.Type != nil)
+	case *ast.TypeAssertExpr:
+		tag, a = "TTypeAssert", b2n(x.Type != nil)
 	default:
+		a = otherCode(n)
 		switch n.(type) {
 		case ast.Expr:
 			tag = "(TOther CExpr)"
@@ -296,6 +416,12 @@ func (c *converter) node(n ast.Node, wantBasic bool) {
 			tag = "(TOther CNode)"
 		}
 	}
+	return
+}
+
+func (c *converter) node(n ast.Node, wantBasic bool) {
+	c.nodes++
+	tag, s, a, b := tagOf(n)
 	fmt.Fprintf(&c.b, "(Nd %s %d %s %d %d %s ", tag, c.pos(n.Pos()), s, a, b, c.facts(n, wantBasic))
 	kids := childrenOf(n)
 	// truncateCmp reads the underlying basic type of comparison operands and of the single argument of f(x)
@@ -322,6 +448,45 @@ func (c *converter) node(n ast.Node, wantBasic bool) {
 		c.b.WriteString(")")
 	}
 	c.b.WriteString(")")
+}
+
+// otherCode: slot a of a TOther node = 1000 * kind code + the scalar attribute astequal compares
+func otherCode(n ast.Node) int {
+	switch x := n.(type) {
+	case *ast.KeyValueExpr:
+		return 1000
+	case *ast.StructType:
+		return 2000
+	case *ast.InterfaceType:
+		return 3000
+	case *ast.MapType:
+		return 4000
+	case *ast.ChanType:
+		return 5000 + int(x.Dir)
+	case *ast.Ellipsis:
+		return 6000
+	case *ast.BadExpr:
+		return 7000
+	case *ast.IncDecStmt:
+		return 8000 + int(x.Tok)
+	case *ast.EmptyStmt:
+		return 9000 + b2n(x.Implicit)
+	case *ast.LabeledStmt:
+		return 10000
+	case *ast.SendStmt:
+		return 11000
+	case *ast.GoStmt:
+		return 12000
+	case *ast.DeclStmt:
+		return 13000
+	case *ast.BadStmt:
+		return 14000
+	case *ast.ImportSpec:
+		return 15000
+	case *ast.BadDecl:
+		return 16000
+	}
+	return 99000
 }
 
 // ConvertFile renders file f of p as a Coq term of type GoAst.file; it also returns the node count.
